@@ -72,7 +72,8 @@ Theorem C05_discrete_SIR_rho_selects_round_N_rho_distinct_nodes : forall g R tre
   reach (discrete_SIR g R trec ord None r0o rho tmin tmax full fuel) out ->
   let n := match rho with None => 1%Z | Some r => d_round_half_even (Qnat (length (gnodes g)) * r) end in
   (rho = None \/ r0o = None) /\
-  (0 <= n)%Z /\ exists i0, NoDup i0 /\ incl i0 (gnodes g) /\ Z.of_nat (length i0) = n /\
+  (0 <= n)%Z /\ exists i0, NoDup i0 /\ incl i0 (gnodes g) /\ (forall v, In v i0 -> ~ In v (opt_list r0o)) /\
+    Z.of_nat (length i0) = n /\
     reach (discrete_SIR g R trec ord (Some i0) r0o None tmin tmax full fuel) out.
 Proof. exact dsir_rho. Qed.
 
@@ -104,16 +105,53 @@ Theorem C05_basic_discrete_SIS_rho_selects_round_N_rho_distinct_nodes : forall g
     reach (basic_discrete_SIS_R g R ord (Some i0) None tmin tmax full fuel) out.
 Proof. exact dsis_rho. Qed.
 
-(* ... so every rho run that is not rejected (i.e. without initial_recovereds) is inside the domain of all
-   the theorems: its rows pass the C04 checker and row 0 is (N - n, n, 0), n = int(round(N*rho)) *)
-Theorem C05_discrete_SIR_rho_run_rows : forall g R trec ord rho tmin tmax full fuel out,
+(* ... the randomly chosen index nodes are never initially recovered (repaired in /repo 0a3e1b4: the sample is
+   drawn among the nodes NOT in initial_recovereds; before, the default single node could be one of them), so
+   every run without initial_infecteds that returns is inside the domain of all the theorems (I0 and R0
+   disjoint): its rows pass the C04 checker and row 0 is the request (N - n - |R0|, n, |R0|), n = 1 or
+   int(round(N*rho)) -- discrete_SIR, hence basic_discrete_SIR, and through the percolation wrapper *)
+Theorem C05_discrete_SIR_sampled_run_starts_as_requested : forall g R trec ord r0o rho tmin tmax full fuel out,
   NoDup (gnodes g) -> (forall u v, In u (gnodes g) -> In v (gadj g u) -> In v (gnodes g)) ->
+  NoDup (opt_list r0o) -> (forall v, In v (opt_list r0o) -> In v (gnodes g)) ->
   perm_oracle ord -> (full = true -> pick_sound R) ->
-  reach (discrete_SIR g R trec ord None None rho tmin tmax full fuel) out ->
+  reach (discrete_SIR g R trec ord None r0o rho tmin tmax full fuel) out ->
   let n := match rho with None => 1%Z | Some r => d_round_half_even (Qnat (length (gnodes g)) * r) end in
+  (rho = None \/ r0o = None) /\
   dwf_rowsb true (onestep_of trec) g tmin tmax (so_rows (o_sim out)) = true /\
-  exists rest, so_rows (o_sim out) = (tmin, [(order g - n - 0)%Z; n; 0%Z]) :: rest.
-Proof. exact dsir_rho_rows_accepted. Qed.
+  exists rest, so_rows (o_sim out) = (tmin, [(order g - n - lenZ (opt_list r0o))%Z; n; lenZ (opt_list r0o)]) :: rest.
+Proof. exact dsir_sampled_rows_accepted. Qed.
+
+Theorem C05_basic_discrete_SIR_sampled_run_starts_as_requested : forall g p ord r0o rho tmin tmax full fuel out,
+  NoDup (gnodes g) -> (forall u v, In u (gnodes g) -> In v (gadj g u) -> In v (gnodes g)) ->
+  NoDup (opt_list r0o) -> (forall v, In v (opt_list r0o) -> In v (gnodes g)) ->
+  perm_oracle ord ->
+  reach (basic_discrete_SIR g p ord None r0o rho tmin tmax full fuel) out ->
+  let n := match rho with None => 1%Z | Some r => d_round_half_even (Qnat (length (gnodes g)) * r) end in
+  (rho = None \/ r0o = None) /\
+  dwf_rowsb true true g tmin tmax (so_rows (o_sim out)) = true /\
+  exists rest, so_rows (o_sim out) = (tmin, [(order g - n - lenZ (opt_list r0o))%Z; n; lenZ (opt_list r0o)]) :: rest.
+Proof.
+  intros g p ord r0o rho tmin tmax full fuel out H1 H2 H3 H4 H5 H.
+  exact (dsir_sampled_rows_accepted g (simple_rules p) None ord r0o rho tmin tmax full fuel out H1 H2 H3 H4 H5 (fun _ => simple_pick_sound p) H).
+Qed.
+
+Theorem C05_percolation_based_discrete_SIR_sampled_run_starts_as_requested : forall g R ord r0o rho tmin tmax full fuel out,
+  NoDup (gnodes g) -> (forall u v, In u (gnodes g) -> In v (gadj g u) -> In v (gnodes g)) ->
+  NoDup (opt_list r0o) -> (forall v, In v (opt_list r0o) -> In v (gnodes g)) ->
+  perm_oracle ord -> (full = true -> pick_sound R) ->
+  reach (percolation_based_discrete_SIR_R g R ord None r0o rho tmin tmax full fuel) out ->
+  let n := match rho with None => 1%Z | Some r => d_round_half_even (Qnat (length (gnodes g)) * r) end in
+  (rho = None \/ r0o = None) /\
+  dwf_rowsb true true g tmin tmax (so_rows (o_sim out)) = true /\
+  exists rest, so_rows (o_sim out) = (tmin, [(order g - n - lenZ (opt_list r0o))%Z; n; lenZ (opt_list r0o)]) :: rest.
+Proof. exact psir_sampled_rows_accepted. Qed.
+
+(* every node initially recovered, neither rho nor initial_infecteds: random.sample([], 1) raises ValueError,
+   in the model as in the code *)
+Theorem C05_discrete_SIR_all_recovered_is_ValueError : forall g R trec ord r0 tmin tmax full fuel ds,
+  (forall v, In v (gnodes g) -> In v r0) ->
+  exists tr, exec (discrete_SIR g R trec ord None (Some r0) None tmin tmax full fuel) ds [] = (Err ValueErr, tr).
+Proof. exact dsir_all_recovered_ValueError. Qed.
 
 (* the rounding is the one of Props/C05.v *)
 Theorem C05_discrete_rounding_is_round_half_even : forall x, d_round_half_even x = Gillespie.round_half_even x.
@@ -214,7 +252,10 @@ Print Assumptions C05_discrete_SIR_rho_and_initial_recovereds_rejected.
 Print Assumptions C05_basic_discrete_SIR_rho_and_initial_recovereds_rejected.
 Print Assumptions C05_percolation_based_discrete_SIR_rho_and_initial_recovereds_rejected.
 Print Assumptions C05_basic_discrete_SIS_rho_selects_round_N_rho_distinct_nodes.
-Print Assumptions C05_discrete_SIR_rho_run_rows.
+Print Assumptions C05_discrete_SIR_sampled_run_starts_as_requested.
+Print Assumptions C05_basic_discrete_SIR_sampled_run_starts_as_requested.
+Print Assumptions C05_percolation_based_discrete_SIR_sampled_run_starts_as_requested.
+Print Assumptions C05_discrete_SIR_all_recovered_is_ValueError.
 Print Assumptions C05_discrete_rounding_is_round_half_even.
 Print Assumptions C05_discrete_SIR_checker_accepts_every_run.
 Print Assumptions C05_basic_discrete_SIS_checker_accepts_every_run.
@@ -224,17 +265,17 @@ Print Assumptions C05_discrete_checker_sound.
 Print Assumptions C05_disc_hypotheses_satisfiable.
 Print Assumptions C05_disc_example.
 
-(* ---------------- a residual finding: neither rho nor initial_infecteds, with initial_recovereds ----
-   When neither rho nor initial_infecteds is given the code starts from ONE node drawn by
-   random.sample(list(G), 1) among ALL nodes: with initial_recovereds given that node may be an initially
-   recovered one, and then (as in the rho case repaired by /repo 124218e) row 0 counts it twice, S goes
-   negative and R exceeds N.  Witness: the path 0-1-2-3, initial_recovereds = [0;1;2], the sample [2]:
-   rows (0,[0;1;3]), (1,[-1;1;4]), (2,[-1;0;5]); reproduced on the code (discrete_SIR and Gillespie_SIR),
-   proposed_known_findings.json.  Outside the domain of the theorems above (they quantify over explicit
-   disjoint sets, or over rho without initial_recovereds). *)
-Theorem C05_discrete_SIR_default_node_respects_initial_recovereds_refuted :
-  exists o tr, exec (discrete_SIR path4 (det_rules (fun _ _ _ => true) (fun _ _ => O)) None (fun _ l => l) None (Some [0; 1; 2]%N) None 0 None false 9) [2] [] = (Ok o, tr) /\
-    map snd (so_rows (o_sim o)) = [[0; 1; 3]; [-1; 1; 4]; [-1; 0; 5]]%Z /\
-    dwf_rowsb true true path4 0 None (so_rows (o_sim o)) = false.
-Proof. eexists. eexists. split; [vm_compute; reflexivity|]. vm_compute. split; reflexivity. Qed.
-Print Assumptions C05_discrete_SIR_default_node_respects_initial_recovereds_refuted.
+(* the input of the second former finding (path 0-1-2-3, initial_recovereds = [0;1;2], neither rho nor
+   initial_infecteds): the population handed to random.sample is [3], whatever the draw the run starts from
+   node 3: rows (0,[0;1;3]), (1,[0;0;4]); with all four nodes initially recovered: ValueError *)
+Example C05_disc_default_node_example :
+  (forall d, In d [0; 1; 2; 3] ->
+     exists o tr, exec (discrete_SIR path4 (det_rules (fun _ _ _ => true) (fun _ _ => O)) None (fun _ l => l) None (Some [0; 1; 2]%N) None 0 None false 9) [d] [] = (Ok o, tr) /\
+       tr = [CSample [[3%N]] 1] /\ map snd (so_rows (o_sim o)) = [[0; 1; 3]; [0; 0; 4]]%Z /\
+       dwf_rowsb true true path4 0 None (so_rows (o_sim o)) = true) /\
+  fst (exec (discrete_SIR path4 (det_rules (fun _ _ _ => true) (fun _ _ => O)) None (fun _ l => l) None (Some [0; 1; 2; 3]%N) None 0 None false 9) [0] []) = Err ValueErr.
+Proof.
+  split; [|vm_compute; reflexivity].
+  intros d [E|[E|[E|[E|[]]]]]; subst d; eexists; eexists; (split; [vm_compute; reflexivity|]); vm_compute; repeat split.
+Qed.
+Print Assumptions C05_disc_default_node_example.
